@@ -2,6 +2,7 @@
 evaluation budget x prior features x n_parallel x score functions x seeds; the returned candidates are
 re-scored by the harness."""
 import itertools
+import math
 
 import numpy as np
 
@@ -9,7 +10,7 @@ LEVEL = 'exploration'
 ASSUMPTIONS = [
     'runs on top of a stand-in for the equinox package (the installed equinox does not import on the installed jax); a violation is re-checked with use_fori=False (no fori_loop tracing) before it is reported',
     'jax_enable_x64 is on, as the service configures it',
-    'the evaluation budget is at least the number of requested candidates (otherwise there is nothing to return)',
+    'the evaluation budget is at least the number of requested candidates (otherwise there is nothing to return); "not worse than the best prior point" is demanded of the eagle strategy only when the budget covers one pass over its pool (10 + 0.5 n + n^1.2 fireflies, rounded up to the batch size)',
     'jax PRNG streams cannot be scripted: the seed is an enumerated configuration value',
 ]
 LAYOUTS = [(0, (3,)), (1, ()), (2, ()), (1, (2,)), (3, (2, 3)), (3, ())]
@@ -195,7 +196,14 @@ def shard(task):
         if prior_trials and not cfg.get('prior_out'):
           pf = conv.to_features(prior_trials)
           ps_ = score_np(cfg['score'], np.asarray(pf.continuous.padded_array), np.asarray(pf.categorical.padded_array), nc, cats)
-          if np.max(R) < np.max(ps_) - 1e-9:
+          # the eagle pool takes the priors in, but a budget below one pass over the pool cannot evaluate them all: "the best
+          # it evaluated" then says nothing about the priors (the random strategy never looks at them: known finding)
+          nfeat = nc + len(cats)
+          pool = min(10 + int(0.5 * nfeat + nfeat ** 1.2), 100)
+          pool = int(math.ceil(pool / cfg['batch']) * cfg['batch'])
+          if cfg['strategy'] == 'eagle' and cfg['evals'] < pool:
+            pass
+          elif np.max(R) < np.max(ps_) - 1e-9:
             found.append(('worse-than-prior', 'best returned score %r < best score among the prior points %r' % (float(np.max(R)), float(np.max(ps_)))))
     # same seed => same result
     try:
